@@ -17,7 +17,7 @@ from ..transports import SimBudgetExceeded
 
 PROP = "C04"
 RUNS = {"quick": 32000, "thorough": 1200000}
-BLOCK = {"quick": 200, "thorough": 2000}
+BLOCK = {"quick": 200, "thorough": 1000}
 SHRINK_LISTS = ["items", "decisions"]
 RULE = (
     "one run = a seeded hostile script (CRC-valid frames around arbitrary payloads of every length 0..1023 and any of "
